@@ -29,3 +29,6 @@ Definition run_errlexer (l : list Z) : list Z :=
   let z1 := with_pos (new_string d) p1 in
   let z2 := with_start z1 (pos z1) in
   enc_outcome (new_error_lexer (graphic_of ng) (with_pos z2 (pos z2 + p2))).
+
+(* case: n     fmt.Sprintf("%5d", n) as the model prints it (the assumption behind the caret column) *)
+Definition run_fmt5d (l : list Z) : list Z := pad_left 5 (fmt_d (hdz l)).
